@@ -52,6 +52,7 @@ TraceInit ==
   /\ verdict = SubSeq(SkipVerdicts, 1, start)
   /\ killed = FALSE /\ memoized = {}
   /\ sleepReq = FALSE /\ asleep = FALSE /\ postponed = {} /\ nsleep = 0
+  /\ pm = [c \in 1..Shapes[sid].n |-> FALSE]
 
 (* what an rx hop that is no controller callback may do to the projected state *)
 Internal == \/ UNCHANGED vars
@@ -62,7 +63,7 @@ Step(e) ==
   CASE Ev(e) = "Pass" -> (Pass \/ UNCHANGED vars)
     [] Ev(e) = "TaskExit" -> TaskExit(Arg(e))
     [] Ev(e) = "KilledExit" -> KilledExit(Arg(e))
-    [] Ev(e) = "PostMortemCheck" -> PostMortemCheck(Arg(e))
+    [] Ev(e) = "PostMortemCheck" -> (PostMortemCheck(Arg(e)) \/ LatePostMortem(Arg(e)) \/ LatePostMortemRepaired(Arg(e)))
     [] Ev(e) = "FinishedCheck" -> FinishedCheck(Arg(e))
     [] Ev(e) = "Internal" -> Internal
     [] Ev(e) = "StageEnd" -> StageEnd
